@@ -265,6 +265,11 @@ func errGuardedClosure(cl *ssa.Function, tr transferFn) (cell *ssa.Alloc, whenNo
 	if !isIf {
 		return nil, 0, 0, false
 	}
+	// `r := recover(); if r != nil || err != nil { cleanup }`: without a panic the first test is false
+	// and the second one is the guard
+	if nb := recoverPrefix(cl); nb != nil {
+		entry, iff = nb, nb.Instrs[len(nb.Instrs)-1].(*ssa.If)
+	}
 	// the guard may also be a captured flag: `done := false; defer func() { if !done { cleanup } }()`,
 	// set only where the function is about to report success. "flag false" plays the part of "error
 	// non-nil", "flag true" that of "error nil" (see guardStateAt).
@@ -414,6 +419,7 @@ func ruleR6() *Rule {
 			r6Open(c)
 			if c.p.Cfg.Vectors {
 				r6VectorMerge(c)
+				r6Detached(c)
 				r6FaissProducers(c)
 			}
 		},
@@ -652,6 +658,11 @@ func r6ProducerBody(c *RuleCtx, fn *ssa.Function, props []string, name string, a
 		}
 		c.add(statusOf(found), name+"/flush-exists", c.fpos(fn), "the buffered writer around the output file is flushed in "+name,
 			"a bufio.Writer wraps the file but (*bufio.Writer).Flush is never called on it", props, nil)
+	}
+	if len(roles) == 0 && delegateMode && len(closeSites) == 0 && len(syncSites) == 0 {
+		// a helper that is handed the file and neither writes through a routine of the package nor
+		// finishes it (`preallocate(f, n)`: f.Truncate): it is one step of its caller, judged there
+		return 0
 	}
 	if len(roles) == 0 && !(delegateMode && (len(closeSites) > 0 || len(syncSites) > 0)) {
 		// (a delegate that only finishes the file — `syncAndClose(f)` — has no writer roles)
@@ -2813,4 +2824,159 @@ func isPointerLike(t types.Type) bool {
 		return true
 	}
 	return false
+}
+
+// r6Detached (R6f DETACHED-INDEX, C19): a function that takes a native index out of its holder (loads
+// vecIndexInfo.index and then stores nil into that field) has taken over the duty of releasing it — the
+// holder's owner will no longer find it. On every way from the detaching store to a return the index is
+// closed (directly or by a deferred Close), handed back to a holder, or was found nil.
+func r6Detached(c *RuleCtx) {
+	p := c.p
+	props := []string{"C19"}
+	if p.NamedType("vecIndexInfo") == nil {
+		return
+	}
+	n := 0
+	for _, fn := range p.ZapFuncs {
+		var detaches []*ssa.Store
+		eachInstr(fn, func(_ *ssa.BasicBlock, in ssa.Instruction) {
+			if st, ok := in.(*ssa.Store); ok && isNilConst(st.Val) {
+				if sn, fld, _, ok := fieldOf(st.Addr); ok && sn == "vecIndexInfo" && fld == "index" {
+					detaches = append(detaches, st)
+				}
+			}
+		})
+		for _, st := range detaches {
+			_, _, base, _ := fieldOf(st.Addr)
+			// the index taken out: a load of the same field of the same holder that dominates the store
+			var taken ssa.Value
+			eachInstr(fn, func(b *ssa.BasicBlock, in ssa.Instruction) {
+				u, ok := in.(*ssa.UnOp)
+				if !ok || u.Op != token.MUL {
+					return
+				}
+				sn, fld, b2, ok := loadedField(u)
+				if !ok || sn != "vecIndexInfo" || fld != "index" || root(b2) != root(base) {
+					return
+				}
+				if b == st.Block() && instrIndexIn(u) < instrIndexIn(st) || (b != st.Block() && b.Dominates(st.Block())) {
+					taken = u
+				}
+			})
+			if taken == nil {
+				continue
+			}
+			// closed before it is detached (`entry.index.Close(); entry.index = nil`)? then nothing is owed
+			const evClosed = 1
+			const evDetached = 2
+			isTaken := func(v ssa.Value) bool {
+				if v == taken || root(v) == taken {
+					return true
+				}
+				// another load of the same field before the detach is the same index
+				if sn, fld, b2, ok := loadedField(v); ok && sn == "vecIndexInfo" && fld == "index" && root(b2) == root(base) {
+					return true
+				}
+				return false
+			}
+			pa := newPathAnalysis(fn, func(in ssa.Instruction, ev uint64, deferred bool) []uint64 {
+				if in == ssa.Instruction(st) {
+					return []uint64{ev | evDetached}
+				}
+				if cs, ok := in.(ssa.CallInstruction); ok {
+					if v, ok := faissCloseOf(cs); ok && isTaken(v) {
+						return []uint64{ev | evClosed}
+					}
+				}
+				if s2, ok := in.(*ssa.Store); ok && isTaken(s2.Val) {
+					// put (back) into a holder
+					if sn, fld, _, ok := fieldOf(s2.Addr); ok && sn == "vecIndexInfo" && fld == "index" {
+						return []uint64{ev | evClosed}
+					}
+				}
+				return nil
+			})
+			pa.edgeTr = func(pred *ssa.BasicBlock, succIdx int, ev uint64) uint64 {
+				iff, ok := pred.Instrs[len(pred.Instrs)-1].(*ssa.If)
+				if !ok {
+					return ev
+				}
+				bo, ok := iff.Cond.(*ssa.BinOp)
+				if !ok || !(bo.Op == token.EQL || bo.Op == token.NEQ) {
+					return ev
+				}
+				x := bo.X
+				if isNilConst(x) {
+					x = bo.Y
+				} else if !isNilConst(bo.Y) {
+					return ev
+				}
+				if isTaken(x) && ((bo.Op == token.EQL) == (succIdx == 0)) {
+					return ev | evClosed // found nil: nothing to release
+				}
+				return ev
+			}
+			pa.run(0)
+			n++
+			var bad []string
+			for _, ret := range returnsOf(fn) {
+				for _, ev := range pa.statesBefore(ret) {
+					if ev&evDetached != 0 && ev&evClosed == 0 {
+						// handed back to the caller?
+						handed := false
+						for _, r := range ret.Results {
+							if isTaken(r) {
+								handed = true
+							}
+						}
+						if !handed {
+							bad = append(bad, "exit without releasing it: "+describeInstr(p, ret))
+							break
+						}
+					}
+				}
+			}
+			c.add(statusOf(len(bad) == 0), fmt.Sprintf("detached-index/%s#%d", funcShortName(fn), n), c.pos(st),
+				funcShortName(fn)+" takes a native index out of its holder (vecIndexInfo.index = nil): it releases that index on every way out",
+				"the index was detached from its holder and a way out neither closes it nor puts it back: the holder's owner can no longer release it (native memory leaks)", props, uniq(bad))
+		}
+	}
+}
+
+// recoverPrefix: the closure starts with `r := recover(); if r != nil || <guard>`: returns the block that
+// holds the <guard> test (reached when nothing panicked), or nil.
+func recoverPrefix(cl *ssa.Function) *ssa.BasicBlock {
+	if len(cl.Blocks) == 0 {
+		return nil
+	}
+	entry := cl.Blocks[0]
+	iff, ok := entry.Instrs[len(entry.Instrs)-1].(*ssa.If)
+	if !ok || len(entry.Succs) != 2 {
+		return nil
+	}
+	bo, ok := iff.Cond.(*ssa.BinOp)
+	if !ok || bo.Op != token.NEQ || !(isNilConst(bo.X) || isNilConst(bo.Y)) {
+		return nil
+	}
+	x := bo.X
+	if isNilConst(x) {
+		x = bo.Y
+	}
+	call, ok := x.(*ssa.Call)
+	if !ok {
+		return nil
+	}
+	if b, ok := call.Call.Value.(*ssa.Builtin); !ok || b.Name() != "recover" {
+		return nil
+	}
+	for _, in := range entry.Instrs {
+		if c2, isCall := in.(ssa.CallInstruction); isCall && c2 != ssa.CallInstruction(call) {
+			return nil
+		}
+	}
+	next := entry.Succs[1]
+	if _, ok := next.Instrs[len(next.Instrs)-1].(*ssa.If); !ok || len(next.Preds) != 1 {
+		return nil
+	}
+	return next
 }
